@@ -22,11 +22,16 @@ def run(ctx):
     ctx.explanation = EXPL
     ctx.trusted = ['rustc nightly MIR construction', 'roaring set algebra', 'heed/LMDB']
     ctx.assumptions = ['split_after >= 1']
+    rules(ctx)
+
+
+def rules(ctx):
     fr.r_kind(ctx)
     n, _ = pairing.check_pairing(ctx, 'R-LINK')
     ctx.floor('R-LINK', 'split-node constructions in the writer', n, 3)
     fr.r_arm_purity(ctx)
     fr.r_symmetry(ctx)
+    fr.r_relink(ctx)
     fr.r_fresh(ctx)
     fr.r_bitmap(ctx)
     fr.r_stale(ctx)
